@@ -34,7 +34,7 @@ CHECKS["C02"] = dict(
     rule=("rapid-generated frame descriptions over the product service shape x cEMI kind (14 shapes, 11 cEMI kinds; cell drawn "
           "uniformly), all fields over the ranges quantified in the statement; each is (1) built as a library value, encoded, decoded "
           "and compared field by field incl. dynamic type, service id and message code, (2) encoded by the independent reference "
-          "encoder, decoded by the library, re-encoded, decoded again and compared; then the buffer the value was decoded from is overwritten and the value rendered and re-encoded once more (a relay reuses its receive buffer). Non-trivial = frame with a nested cEMI message or "
+          "encoder, decoded by the library, re-encoded, decoded again and compared; then the buffer the value was decoded from is overwritten and the value rendered and re-encoded once more (a relay reuses its receive buffer); the decoded value is overwritten through reflection and the bytes decoded again; a third of the plans decode a second frame of the same shape into the used service value / message variable / message body and compare with a decode into a zero value; one plan in 100 is a codec storm (2..8 goroutines encoding, decoding and re-encoding their own frames 50..300 times). Non-trivial = frame with a nested cEMI message or "
           "a description block; distinct by reference encoding."),
     level_text=("Sampled exploration of the value space with an exact round-trip oracle and an independent reference encoder for the "
                 "decode-first half; every service x cEMI cell is hit (histogram in the evidence)."),
@@ -220,7 +220,7 @@ _RTR_ASSUME = ["A2 (memsock is a faithful model of the kernel sockets above the 
 CHECKS["C13"] = dict(
     rule=("rapid-drawn router runs on the real clock: post-send pause 0/1/2/5/20 ms, 1..8 sender goroutines, bursts of up to 200 messages, "
           "scenario classes pacing / busy at idle (hand-over stamped, lock then seen held through the TryLock probe, senders released "
-          "only then) / busy storm / busy under saturation, routing-lost indications (count 1..6) injected during half of the pacing bursts so that repetitions compete with queued senders, wait times 0..500 ms and 65535 ms, both control values. Non-trivial = run "
+          "only then) / busy storm / busy under saturation, routing-lost indications (count 1..6) and busy indications with a wait below the pause injected during half of the pacing bursts so that repetitions compete with queued senders, wait times 0..500 ms and 65535 ms, both control values. Non-trivial = run "
           "with >= 2 contending senders or a busy indication that was seen to take effect; distinct by plan."),
     level_text=("Sampled schedules on the real clock with one-sided oracles: start(i+1) - end(i) >= pause for every successful transmission, "
                 "no transmission earlier than hand-over + min(wait, 50 ms) once the lock was seen held at idle, a silence of at least "
@@ -317,7 +317,7 @@ CHECKS["C05"] = dict(
     rule=("rapid-drawn histories of the composed system: real client x reference gateway (accepts the expected number, re-acknowledges the "
           "previous one, ignores others, repeats its own requests 2..5 times) x network with one fate per datagram and direction "
           "(deliver after a delay around 0, r/2, r, 2r; lose; duplicate with a second delay), 0..6 telegrams per direction (5% of the "
-          "plans 258..320 so that the numbering wraps), fast and absent readers; fake clock. Non-trivial = history with a client "
+          "plans 258..320 so that the numbering wraps), fast and absent readers; fake clock. The acknowledgement rules of the C04 receiver model are applied to the same traces. Non-trivial = history with a client "
           "retransmission, or loss and duplication, or the wrap; distinct by plan."),
     level_text=("Sampled paths of the composed system with the real modulus 256 on a fake clock; history invariants: nothing is put on the "
                 "bus twice, every successful Send is on the bus exactly once and in completion order, every telegram the gateway got "
@@ -338,7 +338,7 @@ CHECKS["C16"] = dict(
           "(exhaustive); UDP sequences of 1..40 datagrams; 1..8 goroutines sending 1..40 frames concurrently over UDP and TCP; "
           "knx.NewTunnel over both socket kinds with SendLocalAddress on/off; the multicast RouterSocket receiving 1..40 datagrams from "
           "and sending 1..24 frames (1..6 goroutines) to a group member; Close called at a drawn moment while the peer keeps transmitting "
-          "20..300 distinct frames (UDP and TCP); a reader that stays away from Inbound() for 5..250 ms (job slow-reader: 1.1..2.6 s, thorough up to 11 s) while 2..12 frames arrive. Non-trivial = TCP stream of >= 2 frames with a cut, or "
+          "20..300 distinct frames (UDP and TCP); frames of exactly 1024/1023/1000 octets and framed-but-undecodable units in the receive plans; a reader that stays away from Inbound() for 5..250 ms (job slow-reader: 1.1..2.6 s, thorough up to 11 s) while 2..12 frames arrive. Non-trivial = TCP stream of >= 2 frames with a cut, or "
           ">= 2 concurrent senders, or a UDP/HPAI case; distinct by plan."),
     level_text=("Sampled streams and segmentations on real kernel sockets; oracle: the values read from Inbound() equal the in-process "
                 "decodes of the transmitted frames, in order, each once; every unit the peer receives is the complete encoding of one sent "
@@ -390,3 +390,20 @@ CHECKS["C12"] = dict(
           # GroupTunnel -> loopback gateway -> back; every payload length 1..254 once, then drawn event sequences
           dict(name="sock", pkg="./sock", go=GO, test="TestC12Sock", shards=(2, 8), checks=(20, 400), timeout=(600, 3000))],
 )
+
+
+# Later additions to the generators, inserted into the rule texts in front of their "Non-trivial =" sentence.
+RULE_ADDENDA = {
+    "C04": "A quarter of the UDP plans let the gateway assign the same channel at every reconnect, a third of the reconnects have 1..4 "
+           "in-sequence requests directly behind the connect response, and a fraction of the telegrams are L_Data.con / L_Data.req.",
+    "C06": "Every 1-/2-byte payload and a fifth of the others are also decoded into a variable that holds the decode of the accepted "
+           "payload with the most bits set (rapid: a drawn earlier payload) and compared with a decode into a zero value.",
+    "C14": "Job race: one lost indication with a count above everything retained arrives in the middle of a burst of 2..6 senders, "
+           "nothing trimmed or failing.",
+    "C17": "On raw tunnels and routers a fraction of the telegrams are L_Data.con / L_Data.req.",
+    "C19": "40 (thorough: 400) fresh child processes whose first Produce calls come from 16 goroutines at once; the slice "
+           "ListSupportedTypes() returned is overwritten and the listing taken again; slices returned by Pack() are kept and must not change.",
+}
+for _k, _add in RULE_ADDENDA.items():
+    assert " Non-trivial =" in CHECKS[_k]["rule"], _k
+    CHECKS[_k]["rule"] = CHECKS[_k]["rule"].replace(" Non-trivial =", " " + _add + " Non-trivial =", 1)
